@@ -388,6 +388,14 @@ func (op *HOp) render() string {
 		default:
 			return fmt.Sprintf("print \"R\", [incp(%s)]", op.T.String())
 		}
+	case "match-early":
+		// an array-pattern case whose body is left with continue / break; then a
+		// variable named like one of the bound names is assigned
+		names := make([]string, op.Idx)
+		for i := range names {
+			names[i] = fmt.Sprintf("mb%d", i)
+		}
+		return fmt.Sprintf("for (ml in [1, 2]) { match (%s) { [%s] => { %s } } }\n%s = \"later\"", op.T.String(), strings.Join(names, ", "), op.Fn, names[len(names)-1])
 	case "ret-member-assign":
 		// assignment to a member of a missing member that a function handed back:
 		// the value returned is null, not a way into the caller's container
@@ -852,6 +860,16 @@ func (h *Heap) apply(op *HOp) (string, error) {
 			}
 			return "[" + fmtNum(n+11) + "]", nil
 		}
+	case "match-early":
+		// nothing the heap holds changes: the bound names end with their case
+		v, err := h.readPath(op.T)
+		if err != nil {
+			return "", err
+		}
+		if v.K != 'a' || len(v.Arr.Items) != op.Idx || op.Idx == 0 || (op.Fn != "continue" && op.Fn != "break") {
+			return "", errUnsupported{"needs an array of exactly that many elements"}
+		}
+		return "", nil
 	case "ret-member-assign":
 		// nothing the heap holds changes (the run may also refuse the assignment with a runtime error)
 		v, err := h.readPath(op.T)
@@ -1584,7 +1602,14 @@ func genHeapCase(t *Tape, maxOps int) *HeapCase {
 	n := 3 + t.Draw(maxOps)
 	for tries := 0; len(c.Ops) < n && tries < n*8; tries++ {
 		var op HOp
-		switch t.Weighted(6, 6, 3, 3, 5, 3, 1, 1, 1, 2, 1, 1, 1, 1, 1, 2, 2, 3, 2) {
+		switch t.Weighted(6, 6, 3, 3, 5, 3, 1, 1, 1, 2, 1, 1, 1, 1, 1, 2, 2, 3, 2, 2) {
+		case 19:
+			p := genHeapPath(t, h, c.Vars, false)
+			n := 0
+			if v, err := h.readPath(p); err == nil && v.K == 'a' {
+				n = len(v.Arr.Items)
+			}
+			op = HOp{Kind: "match-early", T: p, Idx: n, Fn: []string{"continue", "break"}[t.Draw(2)]}
 		case 18:
 			op = HOp{Kind: "self-chain", T: genHeapPath(t, h, c.Vars, true), Op: []string{"pre++", "pre--", "post++", "post--", "+", "-", "*", "+&", "-&", "+&"}[t.Draw(10)], Num: float64(1 + t.Draw(9))}
 		case 17:
@@ -1771,6 +1796,15 @@ func (h *Heap) dryRun(op *HOp) error {
 		}
 		if v.K != 'o' {
 			return errUnsupported{"needs an object"}
+		}
+		return nil
+	case "match-early":
+		v, err := h.readPath(op.T)
+		if err != nil {
+			return err
+		}
+		if v.K != 'a' || len(v.Arr.Items) != op.Idx || op.Idx == 0 {
+			return errUnsupported{"needs an array of exactly that many elements"}
 		}
 		return nil
 	case "assign-lit":
